@@ -45,6 +45,7 @@ func runC05(c *Ctx) {
 	c05ReadThenWrite(c)
 	c05Unconsumed(c)
 	c05StickyErr(c)
+	c.R.Floor("POOLESCAPE", poolEscape(c, "POOLESCAPE", []string{"control"}, func(f string) bool { return strings.HasPrefix(f, "tcp") }), 4)
 }
 
 // findLit returns the function literal inside f that evaluates a call to ref.
